@@ -18,6 +18,7 @@ import sys
 
 LOG = []
 MARKS = []
+HEAP = []  # per dump: (entries in the C heap, cached allocation in bytes); for a resume: the same after loading
 STATE = {"depth": 0, "dump_dir": None, "ndumps": 0, "current": None}
 
 
@@ -29,6 +30,16 @@ def _digest(cnodes):
                 None if u.time_stamp is None else [u.time_stamp.quotient.hex(), u.time_stamp.remainder.hex()],
                 [rec(x) for x in c.children]]
     return [rec(c) for c in cnodes]
+
+
+def _heap_info(mediator):
+    sch = getattr(mediator, "_scheduler", None)
+    if sch is None or not hasattr(sch, "_allocated_memory_bytes"):
+        return None
+    try:
+        return [len(sch.__getstate__()["heap_entries"]), sch._allocated_memory_bytes]
+    except Exception:
+        return None
 
 
 def install_patches():
@@ -71,6 +82,7 @@ def install_patches():
             if STATE["dump_dir"] is not None:
                 shutil.copy(target._output_filename, os.path.join(STATE["dump_dir"], "dump_%d.dat" % STATE["ndumps"]))
             MARKS.append(len(LOG))
+            HEAP.append(_heap_info(args[0]) if args else None)
             STATE["ndumps"] += 1
         else:
             if args and isinstance(args[0], (list, tuple)):
@@ -189,6 +201,7 @@ def main(argv):
             with open(job["dump"], "rb") as f:
                 med, dsetting, duuid, rstate = dill.load(f)
             med.update_logging()
+            HEAP.append(_heap_info(med))
             setting.__dict__.update(dsetting.__dict__)
             uuid.__dict__.update(duuid.__dict__)
             random.setstate(rstate)
@@ -202,6 +215,7 @@ def main(argv):
         result["error"] = "%r\n%s" % (e, traceback.format_exc()[-2500:])
     result["log"] = LOG
     result["marks"] = MARKS
+    result["heap"] = HEAP
     with open(job["out"], "w") as f:
         json.dump(result, f)
 
